@@ -640,7 +640,7 @@ theorem cfg_exec (L0 kv0 B F0 mb) (ops : List Op) (s : St) (hi : Inv L0 kv0 B s)
 /-- **Config entries are applied to membership exactly once and in log order** (restart-free schedules in
     which membership accepts every change): the list of `Membership::apply_config_change` calls is exactly
     the Config entries among the dispatched log entries `L0+1 ..= frontier`, in order. (What happens when a
-    change is rejected is `pb_fold_cfg_after_error`: later Config entries of the same `process_batch` call
+    change is rejected is `pb_fold_cfg_all`: later Config entries of the same `process_batch` call
     are skipped for good.) -/
 theorem cfg_applied_exact (mb : Nat) (s0 : St) (ops : List Op) (h0 : Init s0) (hw : WfOps ops)
     (hnr : NoRestart ops) (hok : AllCfgOk ops) (hlog : ∀ p ∈ s0.log, p ≠ Payload.config false)
